@@ -34,13 +34,15 @@ def build(H, tier, seed):
     A.vc_constructors(H)
     AL.vc_blade2canon(H)
     AL.vc_blade2canon_concrete(H)
+    AL.vc_blade2canon_concrete(H, d=4, start=12)      # generators c, d, e, f: one is named like the prefix of every blade name
     AL.vc_bladedict_getitem(H)
 
 
 def standins(tier, seed):
     n = 4 if tier == 'quick' else 25
     cfgs = [dict(p=2, q=0, r=1), dict(name='3DPGA'), dict(p=2, graded=True), dict(p=3, start_index=0), dict(name='2DPGA'),
-            dict(p=1, q=1, r=1, graded=True), dict(p=4, graded=True)]
+            dict(p=1, q=1, r=1, graded=True), dict(p=4, graded=True),
+            dict(signature=[1, 1, 1, 1], start_index=12), dict(signature=[1, -1, 0], start_index=13)]      # generators named with hex letters, one of them 'e'
     if tier != 'quick':
         cfgs += [dict(p=4), dict(p=3, q=1), dict(name='STAP'), dict(p=3, q=0, r=1, graded=True),
                  dict(p=3, basis=['e', 'e1', 'e2', 'e3', 'e12', 'e31', 'e23', 'e123'])]
